@@ -73,8 +73,10 @@ Qed.
 Definition safe_instr (P : N -> bool) (i : instr) : bool :=
   match i with
   | Raise _ => true
+  | RootEnd ids => forallb P ids
   | RegEmpty r [] => P r
-  | CctxParent r | CctxPut r | CctxDel r | RendPut r | RendPop r | AttrPop r | UnInAll r => P r
+  | CctxParent r | CctxPut r | CctxDel r | RendPut r | RendPop r | AttrPop r | UnInAll r
+  | PurgeCctx r | PurgeRend r | PurgeAttr r => P r
   | AttrUpd r kids => P r && forallb P kids
   | GHas _ _ | SOff _ | NsHas | NsGet => true
   | _ => false
@@ -99,6 +101,12 @@ Proof. apply forallb_app. Qed.
 Lemma safe_code_parse P n : safe_code P (code_parse n) = true.
 Proof. induction n; simpl; auto. Qed.
 
+Lemma safe_code_purge P ids : forallb P ids = true -> safe_code P (code_purge ids) = true.
+Proof.
+  induction ids as [|r ids IH]; simpl; intro H; [reflexivity|].
+  apply andb_true_iff in H as [Hr Hi]. rewrite Hr. simpl. exact (IH Hi).
+Qed.
+
 Lemma quiet_with_ts g t : quiet g -> quiet (with_ts g t).
 Proof. intros H; exact H. Qed.
 
@@ -114,6 +122,8 @@ Proof.
   assert (Hid : with_ts g (ts g) = g) by (destruct g; reflexivity).
   destruct i; simpl in Hs; try discriminate.
   - (* Raise *) left. eexists. reflexivity.
+  - (* RootEnd *) right. exists (ts g), (code_purge ids), []. simpl. rewrite Hid.
+    split; [reflexivity|]. split; [apply safe_code_purge; exact Hs|exact Hsame].
   - (* RegEmpty *) destruct vis; [|discriminate]. right. exists (ts g), [], []. simpl. rewrite Hprov, Hid. auto.
   - (* UnInAll *) right. exists (ts g), [], []. simpl. rewrite Hall, Hid. simpl. auto.
   - (* CctxParent *) simpl. destruct (amem p (cctx (ts g))).
@@ -141,6 +151,15 @@ Proof.
   - (* AttrUpd *) apply andb_true_iff in Hs as [Hr Hk].
     right. eexists _, [], []. simpl. split; [reflexivity|]. split; [reflexivity|].
     intros k HPk. simpl. rewrite alookup_fold_aput, (mem_false_of_forallb P k kids Hk HPk). auto.
+  - (* PurgeCctx *) right. eexists _, [], []. simpl. split; [reflexivity|]. split; [reflexivity|].
+    intros k Hk. simpl. rewrite alookup_aremove.
+    destruct (N.eqb k r) eqn:E; [apply N.eqb_eq in E; subst; congruence|]. auto.
+  - (* PurgeRend *) right. eexists _, [], []. simpl. split; [reflexivity|]. split; [reflexivity|].
+    intros k Hk. simpl. rewrite alookup_aremove.
+    destruct (N.eqb k r) eqn:E; [apply N.eqb_eq in E; subst; congruence|]. auto.
+  - (* PurgeAttr *) right. eexists _, [], []. simpl. split; [reflexivity|]. split; [reflexivity|].
+    intros k Hk. simpl. rewrite alookup_aremove.
+    destruct (N.eqb k r) eqn:E; [apply N.eqb_eq in E; subst; congruence|]. auto.
   - (* GHas *) right. simpl. rewrite Hdict. simpl. eexists (ts g), _, _. rewrite Hid. split; [reflexivity|].
     split; [|exact Hsame]. rewrite safe_code_app, safe_code_parse. reflexivity.
   - (* SOff *) right. simpl. rewrite Hoff. exists (ts g), [], []. rewrite Hid. auto.
@@ -161,6 +180,7 @@ Proof.
   assert (Hid2 : with_ts g2 (ts g2) = g2) by (destruct g2; reflexivity).
   destruct i; simpl in Hs; try discriminate.
   - left. eexists. split; reflexivity.
+  - (* RootEnd *) right. exists (ts g1), (ts g2), (code_purge ids), []. simpl. rewrite Hid1, Hid2. auto.
   - destruct vis; [|discriminate]. right. exists (ts g1), (ts g2), [], []. simpl. rewrite Hp1, Hp2, Hid1, Hid2. auto.
   - right. exists (ts g1), (ts g2), [], []. simpl. rewrite Ha1, Ha2, Hid1, Hid2. simpl. auto.
   - (* CctxParent *) simpl. unfold amem. destruct (Hag p Hs) as (E & _ & _). rewrite E.
@@ -185,31 +205,65 @@ Proof.
     intros k Hk. destruct (Hag k Hk) as (E1 & E2 & E3). simpl. rewrite !alookup_aremove, E3. auto.
   - (* AttrUpd *) right. eexists _, _, [], []. simpl. split; [reflexivity|]. split; [reflexivity|].
     intros k Hk. destruct (Hag k Hk) as (E1 & E2 & E3). simpl. rewrite !alookup_fold_aput, E3. auto.
+  - (* PurgeCctx *) right. eexists _, _, [], []. simpl. split; [reflexivity|]. split; [reflexivity|].
+    intros k Hk. destruct (Hag k Hk) as (E1 & E2 & E3). simpl. rewrite !alookup_aremove, E1. auto.
+  - (* PurgeRend *) right. eexists _, _, [], []. simpl. split; [reflexivity|]. split; [reflexivity|].
+    intros k Hk. destruct (Hag k Hk) as (E1 & E2 & E3). simpl. rewrite !alookup_aremove, E2. auto.
+  - (* PurgeAttr *) right. eexists _, _, [], []. simpl. split; [reflexivity|]. split; [reflexivity|].
+    intros k Hk. destruct (Hag k Hk) as (E1 & E2 & E3). simpl. rewrite !alookup_aremove, E3. auto.
   - (* GHas *) right. simpl. rewrite Hd1, Hd2. simpl. eexists (ts g1), (ts g2), _, _. rewrite Hid1, Hid2. auto.
   - (* SOff *) right. simpl. rewrite Ho1, Ho2. exists (ts g1), (ts g2), [], []. rewrite Hid1, Hid2. auto.
   - (* NsHas *) right. simpl. rewrite Hn1, Hn2. exists (ts g1), (ts g2), [NsGet], []. rewrite Hid1, Hid2. auto.
   - (* NsGet *) right. simpl. rewrite Hn1, Hn2. exists (ts g1), (ts g2), [], []. rewrite Hid1, Hid2. auto.
 Qed.
 
-(* unwinding safe code finds no provide body: the exception escapes *)
-Lemma unwind_safe P e c : safe_code P c = true -> unwind e c = None.
+(* unwinding safe code finds no provide body: the exception runs the roots' `finally` blocks and escapes *)
+Lemma unwind_safe P e c : safe_code P c = true ->
+  match unwind e c with Some c' => safe_code P c' = true | None => True end.
 Proof.
-  induction c as [|i c IH]; simpl; intro H; [reflexivity|].
-  apply andb_true_iff in H as [Hi Hc]. destruct i; simpl in Hi; try discriminate; auto.
+  induction c as [|i c IH]; simpl; intro H; [exact I|].
+  apply andb_true_iff in H as [Hi Hc]. destruct i; simpl in Hi; try discriminate; try (apply IH; exact Hc).
+  (* RootEnd *)
+  match goal with
+  | |- context [code_purge ?l] =>
+      change (safe_code P (code_purge l ++ Raise e :: c) = true);
+      rewrite safe_code_app; simpl; rewrite (safe_code_purge P l Hi); exact Hc
+  end.
 Qed.
 
 Definition safe_thread (P : N -> bool) (th : thread) : Prop := safe_code P (code th) = true.
 
-Lemma raise_in_safe P e rest o l : safe_code P rest = true ->
-  raise_in e rest o l = {| code := []; out := o; tr := l; failed := Some e |}.
-Proof. intro H. unfold raise_in. rewrite (unwind_safe P e rest H). reflexivity. Qed.
+Lemma raise_in_safe P e rest o l : safe_code P rest = true -> safe_thread P (raise_in e rest o l).
+Proof.
+  intro H. unfold raise_in, safe_thread. pose proof (unwind_safe P e rest H) as HU.
+  destruct (unwind e rest); simpl; auto.
+Qed.
+
+Lemma settle_n_safe P n : forall th, safe_thread P th -> safe_thread P (settle_n n th).
+Proof.
+  induction n as [|n IH]; intros th H; simpl; [exact H|].
+  unfold safe_thread in H. destruct (code th) as [|i rest] eqn:E; [unfold safe_thread; rewrite E; exact H|].
+  destruct i; try (unfold safe_thread; rewrite E; exact H); apply IH.
+  - apply raise_in_safe. simpl in H. exact H.
+  - change (safe_instr P (RootEnd ids) && safe_code P rest = true) in H.
+    apply andb_true_iff in H as [Hi Hrest]. simpl in Hi.
+    unfold safe_thread. simpl. rewrite safe_code_app, (safe_code_purge P ids Hi), Hrest. reflexivity.
+Qed.
 
 Lemma settle_safe P th : safe_thread P th -> safe_thread P (settle th).
+Proof. apply settle_n_safe. Qed.
+
+Lemma add_cb_safe P r c : P r = true -> safe_code P c = true -> safe_code P (add_cb r c) = true.
 Proof.
-  unfold safe_thread, settle. intro H. destruct (code th) as [|i rest] eqn:E; [rewrite E; exact H|].
-  destruct i; try (rewrite E; exact H).
-  simpl in H. rewrite (raise_in_safe P e rest _ _ H). reflexivity.
+  intro Hr. induction c as [|i c IH]; simpl; intro H; [reflexivity|].
+  apply andb_true_iff in H as [Hi Hc].
+  destruct i; simpl in Hi; try discriminate; simpl;
+    try (apply IH; exact Hc); try (rewrite Hi; simpl; apply IH; exact Hc).
+  (* RootEnd *) rewrite forallb_app, Hi. simpl. rewrite Hr. exact Hc.
 Qed.
+
+Lemma after_instr_safe P i rest : safe_instr P i = true -> safe_code P rest = true -> safe_code P (after_instr i rest) = true.
+Proof. intros Hi Hr. destruct i; simpl; auto. apply add_cb_safe; assumption. Qed.
 
 (* one step of a safe thread in a quiet state *)
 Lemma step_thread_safe P g th :
@@ -223,11 +277,11 @@ Proof.
     split; [intros k _; auto|]. exists (ts g). destruct g; reflexivity.
   - simpl in Hs. apply andb_true_iff in Hs as [Hi Hrest].
     destruct (exec_safe_shape P i g Hq Hi) as [[e He] | (t' & push & o & He & Hpush & Hun)]; rewrite He.
-    + split; [exact Hq|]. split.
-      { apply settle_safe. unfold safe_thread. rewrite (raise_in_safe P e rest _ _ Hrest). reflexivity. }
+    + split; [exact Hq|]. split; [apply settle_safe; apply raise_in_safe; exact Hrest|].
       split; [intros k _; auto|]. exists (ts g). destruct g; reflexivity.
     + split; [apply quiet_with_ts; exact Hq|]. split.
-      { apply settle_safe. unfold safe_thread. simpl. rewrite safe_code_app, Hpush, Hrest. reflexivity. }
+      { apply settle_safe. unfold safe_thread. simpl.
+        rewrite safe_code_app, Hpush, (after_instr_safe P i rest Hi Hrest). reflexivity. }
       split; [exact Hun|]. exists t'. reflexivity.
 Qed.
 
@@ -518,8 +572,8 @@ Proof.
   destruct parent; [simpl; auto|].
   change (safe_code P (prep None [] rid tpl inj fail (length (direct_ids body)) ++
                        ([RendPop rid; AttrPop rid] ++ imm ++ [AttrUpd rid (direct_ids body)] ++ dfr ++
-                        [CctxDel rid; UnInAll rid])) = true /\ safe_code P [] = true).
-  rewrite safe_code_app, Hprep, Hproc. auto.
+                        [CctxDel rid; UnInAll rid]) ++ [RootEnd []]) = true /\ safe_code P [] = true).
+  rewrite safe_code_app, Hprep. rewrite safe_code_app, Hproc. auto.
 Qed.
 
 Lemma gens_safe P l : provfree_list P l = true -> safe_code P (fst (gens None [] l)) = true.
@@ -562,13 +616,14 @@ Definition solo_finished (c0 : config) (t : nat) : bool :=
 (* --- F1: managed_provide_cache's except branch diffs the GLOBAL all_reference_ids ---
    thread 0: {% provide p %}{% component c2 %}{% component c3 %}{% endprovide %}, both inject p   (succeeds alone)
    thread 1: {% provide p %}{% component c1002 %}{% endprovide %}, c1002 injects and then raises   (raises Boom alone)
-   schedule: 1 runs up to its all_reference_ids.copy(); 0 registers c2; 1 fails and un-registers c2 too; 0's c2 then
-   deletes the provided data early, c3 does not register and its inject raises KeyError. *)
+   schedule: 1 runs up to its all_reference_ids.copy(); 0 registers c2; 1 fails and un-registers c2 too; when 0's c2
+   finishes it is no longer registered, so its references are never dropped ... and c2's finish deletes the provided
+   data early: c3 does not register and its inject raises KeyError. *)
 Definition F1_pages : list (list item) :=
   [ [IProv 1 1 1 [IComp 2 (Some 11) (Some 1) false []; IComp 3 (Some 12) (Some 1) false []]];
     [IProv 1 1001 1 [IComp 1002 (Some 10) (Some 1) true []]] ].
-Definition F1_c0 : config := init_config (empty_G (Some 0%Z) [1002; 2] [] true) (map TRender F1_pages).
-Definition F1_sched : list nat := expand [(1, 2); (0, 17); (1, 27); (0, 7)]%nat.
+Definition F1_c0 : config := init_config (empty_G (Some 0%Z) [2] [] true) (map TRender F1_pages).
+Definition F1_sched : list nat := expand [(1, 2); (0, 17); (1, 15); (0, 11)]%nat.
 
 Theorem provide_errorpath_refuted_lemma :
   all_finished (run F1_sched F1_c0) = true /\ solo_finished F1_c0 0 = true /\ solo_finished F1_c0 1 = true /\
@@ -584,7 +639,7 @@ Definition F2_pages : list (list item) :=
   [ [IProv 1 1 1 [IComp 2 (Some 10) (Some 1) false []]];
     [IProv 1 1001 1 [IComp 1002 (Some 11) (Some 1) false []]] ].
 Definition F2_c0 : config := init_config (empty_G (Some 0%Z) [] [] true) (map TRender F2_pages).
-Definition F2_sched : list nat := expand [(0, 19); (1, 19); (0, 8); (1, 6)]%nat.
+Definition F2_sched : list nat := expand [(0, 19); (1, 19); (0, 12); (1, 10)]%nat.
 
 Theorem unregister_snapshot_refuted_lemma :
   all_finished (run F2_sched F2_c0) = true /\ solo_finished F2_c0 0 = true /\ solo_finished F2_c0 1 = true /\
@@ -596,21 +651,20 @@ Theorem unregister_snapshot_refuted_lemma :
 Proof. vm_compute. repeat split. Qed.
 
 (* --- F3: `if not provide_cache: return` in register_provide_reference looks at ALL threads' providers ---
-   thread 0 renders a component without any provider whose get_context_data raises; thread 1 a provide + inject render.
-   Alone, thread 0 returns at the emptiness test and leaves no reference id behind; with thread 1's provider alive it
-   registers itself, fails, and its id stays in all_reference_ids for ever.  Both results equal the solo results. *)
+   thread 0 renders one plain component: no provider anywhere in its page.  Alone it returns at the emptiness test and never
+   enters the provide bookkeeping.  With thread 1's provider alive it registers itself, and when it finishes it walks
+   thread 1's keys in unregister_provide_reference - where F2 strikes: KeyError for a render that uses no provider. *)
 Definition F3_pages : list (list item) :=
-  [ [IComp 1 (Some 11) None true []];
+  [ [IComp 1 (Some 11) None false []];
     [IProv 1 1001 1 [IComp 1002 (Some 10) (Some 1) false []]] ].
 Definition F3_c0 : config := init_config (empty_G (Some 0%Z) [] [] true) (map TRender F3_pages).
-Definition F3_sched : list nat := expand [(1, 1); (0, 3); (1, 26)]%nat.
+Definition F3_sched : list nat := expand [(1, 3); (0, 13); (1, 28); (0, 5)]%nat.
 
 Theorem register_empty_check_refuted_lemma :
   all_finished (run F3_sched F3_c0) = true /\ solo_finished F3_c0 0 = true /\ solo_finished F3_c0 1 = true /\
-  thread_result (run F3_sched F3_c0) 0 = solo_result F3_c0 0 /\
-  thread_result (run F3_sched F3_c0) 1 = solo_result F3_c0 1 /\
-  allrefs (ps (gl (run F3_sched F3_c0))) = [1] /\
-  allrefs (ps (gl (solo SOLO_FUEL 0 F3_c0))) = [] /\ allrefs (ps (gl (solo SOLO_FUEL 1 F3_c0))) = [].
+  solo_result F3_c0 0 = Some (None, [OTpl 11]) /\
+  thread_result (run F3_sched F3_c0) 0 = Some (Some KeyError, [OTpl 11]) /\
+  thread_result (run F3_sched F3_c0) 1 = solo_result F3_c0 1.
 Proof. vm_compute. repeat split. Qed.
 
 (* --- F4: LRUCache.get / set are not synchronised ---
@@ -620,7 +674,7 @@ Proof. vm_compute. repeat split. Qed.
 Definition F4_pages : list (list item) :=
   [ [IComp 1 (Some 10) None false []]; [IComp 1001 (Some 11) None false []] ].
 Definition F4a_c0 : config := start (Some 1%Z) [10] [] [] true (map TRender F4_pages).
-Definition F4a_sched : list nat := expand [(0, 3); (1, 24); (0, 1)]%nat.
+Definition F4a_sched : list nat := expand [(0, 1); (1, 28); (0, 1)]%nat.
 
 Theorem lru_concurrent_get_refuted_lemma :
   all_finished (run F4a_sched F4a_c0) = true /\ solo_finished F4a_c0 0 = true /\ solo_finished F4a_c0 1 = true /\
@@ -632,7 +686,7 @@ Proof. vm_compute. repeat split. Qed.
 (* (b) size 2, both templates cached, two hits: both renders return the right thing, but the linked list has lost an
        entry the dict still holds (the next evictions take the wrong node / raise). *)
 Definition F4b_c0 : config := start (Some 2%Z) [10; 11] [] [] true (map TRender F4_pages).
-Definition F4b_sched : list nat := expand [(1, 5); (0, 20); (1, 15)]%nat.
+Definition F4b_sched : list nat := expand [(1, 3); (0, 24); (1, 21)]%nat.
 
 Theorem lru_concurrent_corrupt_refuted_lemma :
   all_finished (run F4b_sched F4b_c0) = true /\
@@ -659,13 +713,15 @@ Theorem lazy_media_double_resolve_refuted_lemma :
   alookup 1 (mcache (ms (gl (run F5_sched F5_c0)))) = Some 2.
 Proof. vm_compute. repeat split. Qed.
 
-(* ---------- non-vacuity of parts A/B: two provider-free pages (one of them failing), a real interleaving ---------- *)
+(* ---------- non-vacuity of parts A/B: two provider-free pages (one of them failing below the root), interleaved ---------- *)
 Definition NV_pages : list (list item) :=
   [ [IComp 1 (Some 10) None false [IComp 2 (Some 11) None false []; IComp 3 (Some 12) None false []]];
-    [IComp 1001 (Some 10) (Some 1) true []] ].            (* injects without a provider: KeyError *)
+    [IComp 1001 (Some 10) None false [IComp 1002 (Some 11) None false [];
+                                      IComp 1003 (Some 12) (Some 1) false []]] ].   (* c1003 injects without a provider *)
 Definition NV_own (t : nat) (k : N) : bool := N.eqb (k / 1000) (N.of_nat t).
 Definition NV_c0 : config := init_config (empty_G (Some 0%Z) [] [] true) (map TRender NV_pages).
-Definition NV_sched : list nat := ([0; 1; 0; 0; 1; 0; 0; 0] ++ repeat 0 40)%nat.
+Definition NV_sched : list nat :=
+  ([0; 1; 0; 0; 1; 0; 1; 1; 1; 0; 1; 1; 0; 1; 1; 1; 1; 1; 1; 1; 1; 1; 1; 1; 1; 1; 1; 1; 1; 1; 1; 1; 1; 1; 1] ++ repeat 0 60)%nat.
 
 Lemma NV_disjoint : disjoint NV_own.
 Proof.
@@ -680,8 +736,8 @@ Example isolation_premises_satisfiable_example :
   disjoint NV_own /\ safe_config NV_own NV_c0 /\
   all_finished (run NV_sched NV_c0) = true /\
   thread_result (run NV_sched NV_c0) 0 = Some (None, [OTpl 10; OTpl 11; OTpl 12]) /\
-  thread_result (run NV_sched NV_c0) 1 = Some (Some KeyError, []) /\
-  residue (gl (run NV_sched NV_c0)) = [[]; []; []; [1001]; []; []].
+  thread_result (run NV_sched NV_c0) 1 = Some (Some KeyError, [OTpl 10; OTpl 11]) /\
+  tables_empty (gl (run NV_sched NV_c0)) = true.
 Proof.
   split; [exact NV_disjoint|]. split.
   - apply (provfree_config_safe_lemma NV_own NV_pages 0 [] []); [lia|exact NV_provfree].
